@@ -17,14 +17,15 @@
    In particular the two `String::from_utf8(..).expect` sites of capture / ifchanged (303, 304)
    are unreachable, because everything a render writes is the UTF-8 encoding of valid characters
    (render_output_is_utf8: what an unbounded sink received decodes, to valid text) — an invariant
-   of the whole evaluation: of lookups, of every math / html / url / string / array filter
-   (ValidFilters.apply_filter_vv), of loops, captures and partials.  "Valid character" is what a
+   of the whole evaluation: of lookups, of every math / html / url / string / array filter and of
+   the date filter, whose formatter writes ASCII or pieces of its format (ValidFilters.apply_filter_vv, ValidDate.strftime_sv), of loops, captures and partials.  "Valid character" is what a
    Rust `String` can hold, so these hypotheses are the type invariant of the inputs; the oracle
    tables (float printing, case mapping, grapheme segmentation) are assumed to return valid text
    (they are Rust strings observed from the implementation).
    render_never_panics_weaker is the same without any validity hypothesis, with 303/304 allowed.
-   Outside the theorem: the `date` filter (C17 proves strftime total) and the jekyll / shopify /
-   extra filters, which are explored on the implementation only; Rust-level panics below the
+   The `date` filter is inside the theorem: its formatter is the strftime interpreter of C17, its conversion of a
+   text to a date-time is an oracle table (`dparse`; "now" / "today" read the clock and are not generated).
+   Outside the theorem: the jekyll / shopify / extra filters, which are explored on the implementation only; Rust-level panics below the
    model (allocation, stack depth). *)
 From LV Require Import Base Value Stack Utf8 Filters_math Filters_html Filters_seq Eval StackProofs SafeProofs ValidProofs ValidFilters.
 
